@@ -29,14 +29,19 @@ func (d *dir) ReadDir(n int) ([]hackpadfs.DirEntry, error) {
 	if err != nil {
 		return nil, err
 	}
-	if n > 0 && d.offset == len(entries) {
-		return nil, io.EOF
+	start := d.offset
+	if start > len(entries) {
+		start = len(entries)
 	}
-	if n <= 0 || d.offset+n > len(entries) {
-		d.offset = n
-	} else {
-		entries = entries[d.offset : d.offset+n]
-		d.offset += n
+	end := len(entries)
+	if n > 0 {
+		if start == len(entries) {
+			return nil, io.EOF
+		}
+		if n < len(entries)-start {
+			end = start + n
+		}
 	}
-	return entries, nil
+	d.offset = end
+	return entries[start:end], nil
 }
